@@ -4,8 +4,8 @@ _SRC13 = ['props/C06/seq13.cc', 'harness/puppet13.cc', 'harness/wraps.c']
 TARGETS = [
     # random: (victim role, client-auth, cert type, HelloRetryRequest round) x 0..2 deviations x legal framing variations
     dict(name='c06_seq13', src=_SRC13, libs=['-lcrypto'], wraps=_WRAPS, env={'VERIF_DIR': '/verif'},
-         quick=dict(cases=1200, secs=40), thorough=dict(cases=150000, secs=900)),
-    # bounded-exhaustive: every single-step deviation of every legal trace (10 domain points: the 8 role x client-auth x cert points + the two client-auth server points with an unknown pre_shared_key offered), default framing;
+         quick=dict(cases=1100, secs=40), thorough=dict(cases=150000, secs=900)),
+    # bounded-exhaustive: every single-step deviation of every legal trace (11 domain points: the 8 role x client-auth x cert points, the two client-auth server points with an unknown pre_shared_key offered, one client point with a HelloRetryRequest round), default framing;
     # (complete in both tiers: some state-machine mutants are only visible at one or two indices)
     dict(name='c06_seq13_singles', src=_SRC13, libs=['-lcrypto'], wraps=_WRAPS, env={'VERIF_DIR': '/verif'}, defs=['C06_ENUM'], enumerate=True,
          quick=dict(cases=0, secs=45, stride=1), thorough=dict(cases=0, secs=240, stride=1)),
